@@ -96,8 +96,9 @@ func IsBarrierKind(k string) bool { return in(k, BarrierKinds) }
 // accessor checks; netopsrc (a net.OpError with Source and Addr)
 // because the library renders it differently from its Error() (known
 // finding F21), which every text-comparing check would report again.
-var ExtraWrapKinds = []string{"uhinter", "netopsrc"}
-var ExtraMultiKinds = []string{"umulticauser", "umultiis"}
+var ExtraWrapKinds = []string{"uhinter", "netopsrc", "uwrapbothfmt", "uwrapstackdetails"}
+var ExtraMultiKinds = []string{"umulticauser", "umultiis", "umultiholes"}
+var ExtraLeafKinds = []string{"uzeroa", "uzerob", "ucodedanon"}
 
 func IsMultiKind(k string) bool { return in(k, MultiKinds) || in(k, ExtraMultiKinds) }
 
@@ -118,11 +119,15 @@ type Cfg struct {
 	MaxDepth             int
 	Leaves, Wraps, Multi []string
 	WLeaf, WWrap, WMulti int
+	// XRate: one tree in XRate is a structural extreme (see extreme.go);
+	// 0 turns them off. XClasses restricts their kinds.
+	XRate    int
+	XClasses []string
 }
 
 // Default configuration: all kinds, weights 2/7/1.
 func Default(str StrGen) *Cfg {
-	return &Cfg{Str: str, MaxDepth: 8, Leaves: LeafKinds, Wraps: WrapKinds, Multi: MultiKinds, WLeaf: 2, WWrap: 7, WMulti: 1}
+	return &Cfg{Str: str, MaxDepth: 8, Leaves: LeafKinds, Wraps: WrapKinds, Multi: MultiKinds, WLeaf: 2, WWrap: 7, WMulti: 1, XRate: 60}
 }
 
 // Without returns a copy of the configuration minus the given kinds.
@@ -148,7 +153,7 @@ func (g *Cfg) With(kinds ...string) *Cfg {
 	c.Leaves, c.Wraps, c.Multi = append([]string(nil), g.Leaves...), append([]string(nil), g.Wraps...), append([]string(nil), g.Multi...)
 	for _, k := range kinds {
 		switch {
-		case in(k, LeafKinds):
+		case in(k, LeafKinds) || in(k, ExtraLeafKinds):
 			c.Leaves = append(c.Leaves, k)
 		case in(k, MultiKinds) || in(k, ExtraMultiKinds):
 			c.Multi = append(c.Multi, k)
@@ -164,6 +169,9 @@ func (g *Cfg) With(kinds ...string) *Cfg {
 // Draw draws a tree with at most `budget` spec nodes (leaves forced
 // once the budget is exhausted).
 func (g *Cfg) Draw(t *rapid.T, budget int) *Spec {
+	if g.XRate > 0 && budget >= 3 && rapid.IntRange(0, g.XRate-1).Draw(t, "structural-extreme") == g.XRate-1 {
+		return g.Extreme(t, g.XClasses...)
+	}
 	b := budget
 	return g.draw(t, &b, 0)
 }
@@ -252,7 +260,11 @@ func (g *Cfg) LeafOf(t *rapid.T, k string) *Spec {
 		s.S = []string{str(t, "safe"), str(t, "msg")}
 	case "risleaf":
 		s.S = []string{str(t, "msg"), rapid.SampledFrom(SentinelNames).Draw(t, "target")}
-	case "prototest":
+	case "ucodedanon":
+		// a value of an unnamed struct type that embeds an error
+		s.S = []string{str(t, "msg")}
+		s.I = []int{rapid.IntRange(0, 9).Draw(t, "code")}
+	case "prototest", "uzeroa", "uzerob":
 	default:
 		panic("LeafOf: unknown kind " + k)
 	}
@@ -363,11 +375,13 @@ func (g *Cfg) WrapOf(t *rapid.T, k string, c *Spec) *Spec {
 		s.S = []string{str(t, "lit")}
 		s.X = []*Spec{nil}
 	case "httpcode":
-		s.I = []int{rapid.OneOf(rapid.IntRange(100, 599), rapid.Just(0)).Draw(t, "code")}
+		// (0, and values up to the range of the wire field)
+		s.I = []int{rapid.OneOf(rapid.IntRange(100, 599), rapid.IntRange(100, 599), rapid.IntRange(100, 599), rapid.Just(0), rapid.SampledFrom([]int{1, 65536, 1 << 31, 3000000000, 1<<32 - 1})).Draw(t, "code")}
 	case "grpccode":
 		// codes.OK (0) is a code like any other for the annotation itself
 		// (C20 excludes it: a gRPC status with code OK is "no error")
-		s.I = []int{rapid.IntRange(0, 16).Draw(t, "code")}
+		// (also codes beyond the ones gRPC defines: the annotation takes any)
+		s.I = []int{rapid.OneOf(rapid.IntRange(0, 16), rapid.IntRange(0, 16), rapid.IntRange(0, 16), rapid.IntRange(0, 16), rapid.SampledFrom([]int{17, 18, 100, 65536, 1<<31 - 1})).Draw(t, "code")}
 	case "ospath":
 		s.S = []string{rapid.SampledFrom([]string{"open", "read", "stat"}).Draw(t, "op"), str(t, "path")}
 		if rapid.IntRange(0, 7).Draw(t, "emptypath") == 7 {
@@ -392,7 +406,7 @@ func (g *Cfg) WrapOf(t *rapid.T, k string, c *Spec) *Spec {
 		s.S = []string{str(t, "msg"), str(t, "det")}
 	case "uhinter":
 		s.S = []string{str(t, "hint"), str(t, "detail")}
-	case "uwrapsafefmt":
+	case "uwrapsafefmt", "uwrapbothfmt", "uwrapstackdetails":
 		s.S = []string{str(t, "safe"), str(t, "msg")}
 	case "stack", "stackdeep", "assertion", "handled", "domhandled", "handleassert", "pkgstack", "uwraptransparent":
 	default:
@@ -422,6 +436,10 @@ func (g *Cfg) MultiOf(t *rapid.T, k string) *Spec {
 	switch k {
 	case "goerrorfmulti", "umulti", "rmulti", "umulticause", "umulticauser", "umultias":
 		s.S = []string{g.Str(t, "msg")}
+	case "umultiholes":
+		// bit i of I[0]: a nil entry precedes cause i; bit n: trailing nil
+		s.S = []string{g.Str(t, "msg")}
+		s.I = []int{rapid.IntRange(1, 1<<(n+1)-1).Draw(t, "holes")}
 	case "umultiis":
 		s.S = []string{g.Str(t, "msg"), rapid.SampledFrom(SentinelNames).Draw(t, "target")}
 	case "join", "subjoin", "gojoin":
